@@ -347,3 +347,5 @@ M("writer-stroke-width-unreified", ["C20"], "the stroke width is written from th
   ("                stroke_width = str(node.stroke_width)", "                stroke_width = str(node.values.get(SVG_ATTR_STROKE_WIDTH, node.stroke_width))"))
 M("writer-par-dropped", ["C20"], "preserveAspectRatio of a built svg is not written (the repaired defect)",
   ("            if node.viewbox.preserve_aspect_ratio is not None:\n                # The viewport", "            if False:\n                # The viewport"))
+M("stroke-width-percent-unnormalised", ["C14"], "percent stroke width against the un-normalised diagonal (the repaired defect)",
+  ("                relative_length=sqrt((width * width + height * height) / 2.0),", "                relative_length=sqrt(width * width + height * height),"))
